@@ -1,6 +1,7 @@
 #!/bin/bash
-# trace.sh <full::harness::path> <secs>: which loops/recursions CBMC unwinds (finds the exploding location)
-cd /repo/serde_avro_fast
-SAF_VERIF=/verif/harness CARGO_NET_OFFLINE=true timeout $2 cargo kani -Z stubbing --target-dir /verif/.target/kani --exact --harness $1 --output-format old > /verif/.work/trace.log 2>&1
+# trace.sh <full::harness::path> <secs> [topN]: which loops/recursions CBMC unwinds (finds the exploding location)
+REPO=${VERIF_REPO:-/repo}; H=${VERIF_HARNESS:-/verif/harness}; T=${VERIF_TARGET:-/verif/.target}
+cd $REPO/serde_avro_fast
+SAF_VERIF=$H CARGO_NET_OFFLINE=true timeout $2 cargo kani -Z stubbing --target-dir $T/kani --exact --harness $1 --output-format old > /verif/.work/trace.log 2>&1
 grep 'Unwinding' /verif/.work/trace.log | sed 's/.*Unwinding recursion \(.*\) iteration.*/REC \1/; s/.*function \(.*\) thread.*/\1/' | sort | uniq -c | sort -rn | head -${3:-25}
 grep -c . /verif/.work/trace.log; grep 'Runtime Symex\|size of program\|VERIFICATION\|variables' /verif/.work/trace.log | head
